@@ -1,0 +1,62 @@
+//go:build verif
+
+// Verification hooks (build tag "verif"): start the router without its
+// tickers and without state-vector sync (the simulator owns heartbeat, dead
+// check and prefix-sync notification events), and read its tables.
+
+package dv
+
+import (
+	"github.com/named-data/ndnd/dv/table"
+	"github.com/named-data/ndnd/dv/tlv"
+	enc "github.com/named-data/ndnd/std/encoding"
+	ndn_sync "github.com/named-data/ndnd/std/sync"
+)
+
+// VerifInit does what Start does before entering its loop, minus the
+// tickers and minus starting SvSync.
+func (dv *Router) VerifInit() error {
+	go dv.nfdc.Start()
+	if err := dv.configureFace(); err != nil {
+		return err
+	}
+	if err := dv.register(); err != nil {
+		return err
+	}
+	dv.mutex.Lock()
+	defer dv.mutex.Unlock()
+	dv.rib.Set(dv.config.RouterName(), dv.config.RouterName(), 0)
+	return nil
+}
+
+// VerifStop stops the management client goroutine.
+func (dv *Router) VerifStop() {
+	dv.nfdc.Stop()
+}
+
+// VerifHeartbeat is one firing of the heartbeat ticker.
+func (dv *Router) VerifHeartbeat() {
+	dv.advertSyncSendInterest()
+}
+
+// VerifDeadcheck is one firing of the dead-neighbour ticker.
+func (dv *Router) VerifDeadcheck() {
+	dv.checkDeadNeighbors()
+}
+
+// VerifPfxSyncUpdate is what SvSync reports when it learns a newer sequence number.
+func (dv *Router) VerifPfxSyncUpdate(node enc.Name, high uint64) {
+	dv.onPfxSyncUpdate(ndn_sync.SvSyncUpdate{NodeId: node, High: high})
+}
+
+// VerifTables returns consistent copies of the router's tables.
+func (dv *Router) VerifTables() (rib []table.VerifRibEntry, nbrs []table.VerifNeighbor, pfx []table.VerifPrefixRouter, advert *tlv.Advertisement, advSeq uint64) {
+	dv.mutex.Lock()
+	defer dv.mutex.Unlock()
+	return dv.rib.VerifEntries(), dv.neighbors.VerifAll(), dv.pfx.VerifRouters(), dv.rib.Advert(), dv.advertSyncSeq
+}
+
+// VerifMgmtQueueLen returns the number of queued management commands.
+func (dv *Router) VerifMgmtQueueLen() int {
+	return dv.nfdc.VerifQueueLen()
+}
